@@ -12,6 +12,7 @@ import (
 	"time"
 
 	bpmn "github.com/olive-io/bpmn/v2"
+	"github.com/olive-io/bpmn/v2/pkg/id"
 )
 
 type Blk struct {
@@ -466,7 +467,7 @@ func waitPending(in *Inst, want []int) []int {
 
 // RunBlk drives one instance of the program: answers pending tasks in the order chosen by choose (index
 // into the sorted observed pending list), writing variables as writesFor decides.
-func RunBlk(b *Blk, env0 [4]bool, choose func(n int) int, writesFor func(task, nth int) [4]int, maxSteps int) blkObs {
+func RunBlk(b *Blk, env0 [4]bool, choose func(n int) int, writesFor func(task, nth int) [4]int, maxSteps int, opts ...bpmn.Option) blkObs {
 	var o blkObs
 	defs, err := ParseDefs(BlkProg(b).XML(""))
 	must(err)
@@ -476,7 +477,7 @@ func RunBlk(b *Blk, env0 [4]bool, choose func(n int) int, writesFor func(task, n
 		vars[fmt.Sprintf("v%d", i)] = v
 		env[i] = v
 	}
-	in, err := StartInst(defs, InstOpt{Vars: vars})
+	in, err := StartInst(defs, InstOpt{Vars: vars, Opts: opts})
 	must(err)
 	defer in.Close()
 	r := bstart(env, b)
@@ -553,3 +554,10 @@ func envCoq(e [4]bool) string {
 	}
 	return "[" + strings.Join(s, ";") + "]"
 }
+
+// slowGen is an id generator that takes its time: every new flow is created a little later, which lets
+// the goroutines that do not create flows (completion monitors, trackers) run ahead of the tokens.
+type slowGen struct{ d time.Duration }
+
+func (g slowGen) Snapshot() ([]byte, error) { return sharedGen.Snapshot() }
+func (g slowGen) New() id.Id                { time.Sleep(g.d); return sharedGen.New() }
